@@ -93,6 +93,18 @@ def define(lean_name: str, e: ast.expr, ret: str = "Rat", params=None) -> str:
     return doc + f"def {lean_name} {ps} : {ret} :=\n  {body}\n\n"
 
 
+def define_cond(lean_name: str, e: ast.expr, params) -> str:
+    """A boolean expression (comparisons joined by and/or) over the declared real parameters."""
+    tr = ExprTr()
+    body = tr.cond(e)
+    extra = [v for v in tr.vars if v not in params]
+    if extra:
+        raise P.Untranslatable(f"{lean_name}: the source now uses {extra}, not among the declared {params}")
+    ps = " ".join(f"({v} : Rat)" for v in params)
+    doc = "/-- parameters: " + ", ".join(params) + " -/\n"
+    return doc + f"def {lean_name} {ps} : Bool :=\n  {body}\n\n"
+
+
 def generate(lean_dir: str):
     paths = gen_c20.generate(lean_dir)
     out = [P.HEADER.format(src="pdfminer/pdfinterp.py, pdfdevice.py, layout.py, pdffont.py, pdfcolor.py", ns="Interp")
@@ -175,6 +187,8 @@ def generate(lean_dir: str):
     if not (isinstance(bb, ast.Tuple) and len(bb.elts) == 4):
         raise P.Untranslatable("LTChar.__init__: horizontal bbox is not a 4-tuple")
     out.append(define("ltchar_bbox_h", bb, "Rect", params=["descent", "rise", "adv", "fontsize"]))
+    # self.upright = a * d * scaling > 0 and b * c <= 0   ((a, b, c, d, e, f) = self.matrix)
+    out.append(define_cond("ltchar_upright", find_assign_in(lc, "upright"), params=["a", "b", "c", "d", "scaling"]))
 
     fnt = P.parse_file("pdfminer/pdffont.py")
     init = P.find_function(fnt, "PDFFont.__init__")
